@@ -1,6 +1,7 @@
 import CalVerif.Lemmas.XlsxSheet
 import CalVerif.Props.C05
 import CalVerif.Props.C10
+import CalVerif.Lemmas.XlsxContainer
 /-! # C01 — XLSX: every cell reads back at its position, with its value and type
     Property theorems only (helper lemmas and by-definition remarks: `Lemmas/XlsxA1.lean`, `Lemmas/XlsxSheet.lean`).
     Model: `Model/XlsxCells.lean` (reader on XML events); logical sheet, documented mapping `expectData`, layouts and
@@ -423,3 +424,156 @@ example : getRowCol (refName true 1048575 16383) = .ok (1048575, some 16383) :=
 #guard refName true 1048575 16383 == [120, 102, 100, 49, 48, 52, 56, 53, 55, 54]   -- "xfd1048576"
 
 end XlsxCells
+
+/-! ## from the archive to the part of the sheet named `n` (container glue)
+
+    `Model/XlsxContainer.lean`: `read_relationships`, the join in `read_workbook` (C16's `Meta.readWorkbookXlsx`),
+    `xml_reader`'s case-insensitive entry lookup, `worksheet_cells_reader`'s lookup by sheet name. `zip` (finding and
+    inflating an entry by its exact name) and quick-xml stay trusted. -/
+
+namespace XlsxContainer
+open Meta MetaEnc XlsxCells XlsxSheet
+
+/-- `read_relationships` returns a map or an error on every event list (for `Props/C06`) -/
+theorem relationships_total (evs : List Meta.Ev) :
+    (∃ r, readRelationships evs = .ok r) ∨ (∃ e, readRelationships evs = .err e) :=
+  relsLoop_total evs []
+
+/-- the sheet list of `Xlsx::new` is total on every archive: whatever the entry names and the events of the
+    relationships and workbook parts, it is a table or an error, never a panic (for `Props/C06`) -/
+theorem sheet_table_total {α : Type} (a : Archive α) :
+    (∃ t, sheetTable a = .ok t) ∨ (∃ e, sheetTable a = .err e) := by
+  unfold sheetTable
+  split
+  · exact Or.inr ⟨_, rfl⟩
+  · rcases relationships_total (a.xml _) with ⟨r, h⟩ | ⟨e, h⟩
+    · rw [h]; simp only
+      split
+      · exact Or.inl ⟨_, rfl⟩
+      · rcases readWorkbookXlsx_total r (a.xml _) with ⟨⟨wb, p⟩, h2⟩ | ⟨e, h2⟩
+        · rw [h2]; exact Or.inl ⟨_, rfl⟩
+        · rw [h2]; exact Or.inr ⟨_, rfl⟩
+    · rw [h]; exact Or.inr ⟨_, rfl⟩
+
+/-- opening a sheet by name is total: the content of one entry, or an error (for `Props/C06`) -/
+theorem open_sheet_total {α : Type} (a : Archive α) (name : String) :
+    (∃ c, openSheet a name = .ok c) ∨ (∃ e, openSheet a name = .err e) := by
+  have hentry : (∃ c, openSheetEntry a name = .ok c) ∨ (∃ e, openSheetEntry a name = .err e) := by
+    unfold openSheetEntry
+    rcases sheet_table_total a with ⟨t, h⟩ | ⟨e, h⟩
+    · rw [h]; simp only
+      split
+      · exact Or.inr ⟨_, rfl⟩
+      · split
+        · exact Or.inr ⟨_, rfl⟩
+        · exact Or.inl ⟨_, rfl⟩
+    · rw [h]; exact Or.inr ⟨_, rfl⟩
+  unfold openSheet
+  rcases hentry with ⟨c, h⟩ | ⟨e, h⟩
+  · rw [h]; exact Or.inl ⟨_, rfl⟩
+  · rw [h]; exact Or.inr ⟨_, rfl⟩
+
+/-- **relationships_roundtrip**: whatever the element prefix, the order of the attributes and the further
+    attributes (`Type`, `TargetMode`, …) of each `<Relationship>`, the map holds every relationship of the part;
+    when an id occurs twice the later one wins (`List.lookup` on the reversed file order) -/
+theorem relationships_roundtrip (lay : PLayout) (hq : QOkOn ["Relationships", "Relationship"] lay.relQ)
+    (ha : ∀ id tg, relAttrs (lay.relAttrsOf id tg) ("", "") = (id, tg)) :
+    readRelationships (relsEvents lay) = .ok lay.rels.reverse :=
+  readRelationships_package lay hq ha
+
+/-- **sheet_table_package**: for every consistent package and every legal physical layout, `Xlsx::new` lists the
+    sheets in document order, each with its name, kind and visibility and with the part path its relationship
+    target names: `worksheets/sheet1.xml`, `/xl/worksheets/sheet1.xml` and `xl/worksheets/sheet1.xml` all give
+    `xl/worksheets/sheet1.xml` (`partPath`) -/
+theorem sheet_table_package {α : Type} [Inhabited α] (sheets : List (PSheet α)) (lay : PLayout) (h : PackageOk sheets lay) :
+    sheetTable (archiveOf sheets lay) =
+      .ok (sheets.map fun s => (⟨s.x.name, s.x.kind, s.x.vis⟩, partPath s.x.target)) :=
+  sheetTable_package sheets lay h
+
+/-- **sheet_part_resolution**: the part opened for the sheet named `n` is the part that holds that sheet's cells —
+    whatever the relationship-id spelling and the place of its namespace declaration, the `Target` form, the further
+    relationships, the case of the entry names and their order in the archive -/
+theorem sheet_part_resolution {α : Type} [Inhabited α] (sheets : List (PSheet α)) (lay : PLayout) (h : PackageOk sheets lay)
+    (s : PSheet α) (hs : s ∈ sheets) :
+    openSheetEntry (archiveOf sheets lay) s.x.name = .ok s.entry ∧ openSheet (archiveOf sheets lay) s.x.name = .ok s.body :=
+  ⟨openSheetEntry_package sheets lay h s hs, openSheet_package sheets lay h s hs⟩
+
+/-- a name that no sheet carries is `WorksheetNotFound` -/
+theorem unknown_sheet_name {α : Type} [Inhabited α] (sheets : List (PSheet α)) (lay : PLayout) (h : PackageOk sheets lay)
+    (name : String) (hn : ∀ s ∈ sheets, s.x.name ≠ name) :
+    openSheet (archiveOf sheets lay) name = .err "WorksheetNotFound" := by
+  unfold openSheet openSheetEntry
+  rw [sheetTable_package sheets lay h]
+  have : (sheets.map fun s => ((⟨s.x.name, s.x.kind, s.x.vis⟩ : Sheet String), partPath s.x.target)).find?
+      (fun s => s.1.name == name) = none := by
+    rw [List.find?_eq_none]
+    intro y hy
+    obtain ⟨s, hs, rfl⟩ := List.mem_map.mp hy
+    simpa using hn s hs
+  simp only [this]
+
+/-- **named_sheet_cells** — "the cells of the part" (C01's reader theorems) are "the cells of the SHEET NAMED n":
+    in a package whose sheet `s` stores the logical sheet `S` under the layout `λ`, opening the sheet by its name
+    and running the cell reader gives exactly the cells of `S` (`cursor_positions`), and the range of
+    `xlsx_range_spec` -/
+theorem named_sheet_cells (cfg : Cfg) (sheets : List (PSheet (List XlsxCells.Ev))) (play : PLayout)
+    (h : PackageOk sheets play) (s : PSheet (List XlsxCells.Ev)) (hs : s ∈ sheets)
+    (S : Sheet) (lay : Layout) (hbody : s.body = renderSheet S lay) (hl : lay.Legal) (hwf : S.WF) (hok : S.ContentOk cfg) :
+    (match openSheet (archiveOf sheets play) s.x.name with
+      | .ok evs => readCells cfg evs
+      | .err e => .err e | .panic e => .panic e | .outOfFuel => .outOfFuel) = .ok (lay.dim.getD default, cellsOf cfg S) ∧
+    (match openSheet (archiveOf sheets play) s.x.name with
+      | .ok evs => worksheetRange cfg evs
+      | .err e => .err e | .panic e => .panic e | .outOfFuel => .outOfFuel) = worksheetRange cfg (renderSheet S lay) := by
+  rw [(sheet_part_resolution sheets play h s hs).2, hbody]
+  exact ⟨cursor_positions cfg S lay hl hwf hok, rfl⟩
+
+/-! non-trivial instance: two sheets (a hidden one); prefix `x:` in the workbook part, none in the `.rels` part;
+    `rel:id` with its namespace declared on `<sheets>`; an absolute and a relative `Target`; a styles relationship
+    and a superseded duplicate of `rId2` in between; attributes of `<Relationship>` in the order Type, Target, Id,
+    TargetMode; entry names in other letter cases, archive order unrelated to the sheet order -/
+
+def exPLayout : PLayout :=
+  { q := fun n => "x:" ++ n, ridKey := "rel:id",
+    wbAttrs := [("xmlns:x", "http://schemas.openxmlformats.org/spreadsheetml/2006/main")],
+    sheetsAttrs := [("xmlns:rel", "http://schemas.openxmlformats.org/officeDocument/2006/relationships")],
+    sheetExtra := fun _ => [("xmlns:q", "urn:other")],
+    relQ := id, relRootAttrs := [("xmlns", "http://schemas.openxmlformats.org/package/2006/relationships")],
+    relAttrsOf := fun i t => [("Type", "…/worksheet"), ("Target", t), ("Id", i), ("TargetMode", "Internal")],
+    rels := [("rId2", "worksheets/old.xml"), ("rId9", "styles.xml"), ("rId2", "/xl/worksheets/sheet2.xml"), ("rId1", "worksheets/sheet1.xml")],
+    wbEntry := "xl/Workbook.xml", relsEntry := "XL/_RELS/WORKBOOK.XML.RELS",
+    names := ["xl/worksheets/Sheet2.xml", "[Content_Types].xml", "XL/_RELS/WORKBOOK.XML.RELS", "xl/styles.xml",
+              "xl/WORKSHEETS/SHEET1.XML", "xl/Workbook.xml"] }
+
+def exS1 : PSheet Nat := ⟨⟨"First", "1", .visible, false, "rId1", "worksheets/sheet1.xml", .workSheet⟩, "xl/WORKSHEETS/SHEET1.XML", 11⟩
+def exS2 : PSheet Nat :=
+  ⟨⟨"Second & last", "2", .hidden, true, "rId2", "/xl/worksheets/sheet2.xml", .workSheet⟩, "xl/worksheets/Sheet2.xml", 22⟩
+def exPSheets : List (PSheet Nat) := [exS1, exS2]
+
+theorem q_x_ok (names : List String) : QOkOn names (fun n => "x:" ++ n) := by
+  intro n _
+  simp [Meta.localName, Meta.afterColon, String.toList_append]
+
+example : PackageOk exPSheets exPLayout ∧ openSheet (archiveOf exPSheets exPLayout) "Second & last" = .ok 22 := by
+  have hok : PackageOk exPSheets exPLayout := by
+    refine ⟨q_x_ok _, by intro n hn; simp only [List.mem_cons, List.not_mem_nil, or_false] at hn; rcases hn with rfl | rfl <;> decide,
+      ⟨by decide, by decide⟩, ?_, ?_, ?_, ?_, ?_, by decide, by decide, by decide, ?_, by decide, by decide⟩
+    · intro s kv hkv
+      simp only [exPLayout, List.mem_singleton] at hkv
+      subst hkv; exact ⟨by decide, by decide, by decide⟩
+    · intro i t; simp [exPLayout, relAttrs]
+    · intro s hs
+      simp only [exPSheets, List.mem_cons, List.not_mem_nil, or_false] at hs
+      rcases hs with rfl | rfl <;> decide
+    · intro s hs
+      simp only [exPSheets, List.mem_cons, List.not_mem_nil, or_false] at hs
+      rcases hs with rfl | rfl <;> decide
+    · intro s hs
+      simp only [exPSheets, List.mem_cons, List.not_mem_nil, or_false] at hs
+      rcases hs with rfl | rfl <;> decide
+    · intro s hs
+      simp only [exPSheets, List.mem_cons, List.not_mem_nil, or_false] at hs
+      rcases hs with rfl | rfl <;> decide
+  exact ⟨hok, (sheet_part_resolution exPSheets exPLayout hok exS2 (by simp [exPSheets])).2⟩
+
+end XlsxContainer
